@@ -50,3 +50,18 @@ PROP["manifest"]["level_text"] += (
     "holds, in the view replayed from everything sent to it, exactly what the cache holds on every allowed key its subscription matches (same "
     "notification, or with event-driven emulation one of equal value), nothing else (stream_converges_exact, stream_queue_drained).")
 
+# Sys.WF (walks_wants etc.), an assumed structure of the LTS theorems above, is derived for the instance built from actual
+# requests (Props/C06Glue.lean): converges / no_missed_change for that instance carry no assumption on the path predicates
+PROP["modules"] += ["Gnmi.Props.C06Glue"]
+PROP["theorems"] += ["Gnmi.C06Glue." + t for t in ["subSys_wf", "walks_wants_derived", "converges_concrete", "no_missed_change_concrete"]]
+PROP["manifest"]["level_text"] += (
+    " The LTS hypothesis Sys.WF (walks ⊆ wants; compatible with a key ⇒ compatible with every covering delete path; a region lies in one "
+    "target) is derived (C06Glue.subSys_wf) for the instance subSys built from actual Subscribe requests and ACLs over the cache model's "
+    "keys, whose walks/wants/covers are tied to Sub.walkItems / Sub.offered / Sub.coversKey; converges_concrete and "
+    "no_missed_change_concrete are the theorems above for that instance without the hypothesis.")
+
+# C04 clauses (a)(b)(c) — sync placement — and updates_only over the sequential model (Props/C04Sync.lean)
+from c04sync_part import MODULES as _SYNC_MODULES, THEOREMS as _SYNC_THEOREMS, LEVEL_TEXT as _SYNC_TEXT
+PROP["modules"] += _SYNC_MODULES
+PROP["theorems"] += _SYNC_THEOREMS
+PROP["manifest"]["level_text"] += _SYNC_TEXT
